@@ -29,6 +29,10 @@ void     env_live_reset(void);
 /* hook called at each tracked allocation before deciding (for fork-at-fault) */
 extern int (*env_alloc_hook)(long k);   /* return 1 to fail this allocation */
 
+/* record-protection seam (env.c): observe every AEAD/CBC seal made by the TLS layer */
+enum { ENV_OP_GCM_INIT = 1, ENV_OP_GCM_READY, ENV_OP_GCM_ENC, ENV_OP_CBC_INIT, ENV_OP_CBC_ENC, ENV_OP_CHACHA_INIT, ENV_OP_CHACHA_ENC };
+extern void (*env_crypto_hook)(int op, const void *ctx, const unsigned char *a, int alen, const unsigned char *b, unsigned blen);
+
 /* ----------------------------------------------------------------- util.c */
 typedef struct { unsigned char *p; size_t len, cap; } buf_t;
 void  buf_init(buf_t *b);
